@@ -5,10 +5,10 @@ package main
 
 import (
 	"fmt"
-	"hash/fnv"
 	"go/constant"
 	"go/token"
 	"go/types"
+	"hash/fnv"
 	"sort"
 	"strings"
 
@@ -25,32 +25,32 @@ type pathElem struct {
 }
 
 type lval struct {
-	alloc  *ssa.Alloc // register root
-	heap   string     // heap array root name (field / cell / map...) when alloc==nil && !global
-	ref    string     // index into heap array
-	global string     // global heap name (scalar)
-	rtyp   types.Type // type of the root location's content
-	path   []pathElem
-	typ    types.Type // type of the designated location
-	anon   string     // detached value (loads only)
-	opaqueBase *lval  // field of an opaque struct: a store havocs the whole struct at opaqueBase
+	alloc      *ssa.Alloc // register root
+	heap       string     // heap array root name (field / cell / map...) when alloc==nil && !global
+	ref        string     // index into heap array
+	global     string     // global heap name (scalar)
+	rtyp       types.Type // type of the root location's content
+	path       []pathElem
+	typ        types.Type // type of the designated location
+	anon       string     // detached value (loads only)
+	opaqueBase *lval      // field of an opaque struct: a store havocs the whole struct at opaqueBase
 }
 
 type val struct {
 	strAt string // for a byte read from a string: the (str.at s i) term (character comparisons use it)
-	let *LetSpec
-	t   string
-	lv  *lval
-	tup []val
-	typ types.Type
-	fn  *ssa.Function // statically known function value
+	let   *LetSpec
+	t     string
+	lv    *lval
+	tup   []val
+	typ   types.Type
+	fn    *ssa.Function // statically known function value
 }
 
 type epoch struct {
 	id    int
 	alloc string // upper bound of the refs stored in heap arrays first read in this epoch
 	cond  string
-	a, b *epoch // merge when a != nil
+	a, b  *epoch // merge when a != nil
 }
 
 type deferred struct {
@@ -82,18 +82,18 @@ func (s *state) clone() *state {
 }
 
 type Obligation struct {
-	Name   string
-	Kind   string
-	Tags   []string
-	Desc   string
-	Pos    string
-	Result string // unsat (discharged) / sat / unknown / timeout
-	Solver string
-	Time   float64
-	Fn     string
-	idx    int
-	guard  string
-	cond   string
+	Name      string
+	Kind      string
+	Tags      []string
+	Desc      string
+	Pos       string
+	Result    string // unsat (discharged) / sat / unknown / timeout
+	Solver    string
+	Time      float64
+	Fn        string
+	idx       int
+	guard     string
+	cond      string
 	Unclaimed string
 	witness   string
 	knownOnly bool
@@ -106,40 +106,40 @@ type edge struct {
 }
 
 type loopInfo struct {
-	head    *ssa.BasicBlock
-	ord     int
-	body    map[*ssa.BasicBlock]bool
-	modRegs map[*ssa.Alloc]bool
-	modHeap map[string]bool
-	modAll  bool
-	headSt  *state
-	variant []string // variant values at head
-	invs    []*Clause
-	decs    []*Clause
-	frames  []*Clause
-	hasFrame bool
-	iter    string
+	head      *ssa.BasicBlock
+	ord       int
+	body      map[*ssa.BasicBlock]bool
+	modRegs   map[*ssa.Alloc]bool
+	modHeap   map[string]bool
+	modAll    bool
+	headSt    *state
+	variant   []string // variant values at head
+	invs      []*Clause
+	decs      []*Clause
+	frames    []*Clause
+	hasFrame  bool
+	iter      string
 	frameObjs []string
 }
 
 type frame struct {
-	fn     *ssa.Function
-	vals   map[ssa.Value]val
-	prov   map[ssa.Value]*lval
-	provOf map[ssa.Value]string // offset term for prov
-	in     map[*ssa.BasicBlock][]edge
-	loops  map[*ssa.BasicBlock]*loopInfo
-	rets   []retEdge
-	params map[string]val
-	depth  int
-	prefix string // obligation name prefix for inlined code
-	entry  *state
-	spec   *FuncSpec
-	names  map[string]*ssa.Alloc
+	fn        *ssa.Function
+	vals      map[ssa.Value]val
+	prov      map[ssa.Value]*lval
+	provOf    map[ssa.Value]string // offset term for prov
+	in        map[*ssa.BasicBlock][]edge
+	loops     map[*ssa.BasicBlock]*loopInfo
+	rets      []retEdge
+	params    map[string]val
+	depth     int
+	prefix    string // obligation name prefix for inlined code
+	entry     *state
+	spec      *FuncSpec
+	names     map[string]*ssa.Alloc
 	namedVals map[string]ssa.Value
-	parent *frame
-	lets   map[string]val
-	named  []*ssa.Alloc
+	parent    *frame
+	lets      map[string]val
+	named     []*ssa.Alloc
 }
 
 type retEdge struct {
@@ -149,35 +149,38 @@ type retEdge struct {
 }
 
 type FnVC struct {
-	eng      *Engine
-	fn       *ssa.Function
-	key      string
-	spec     *FuncSpec
-	sorts    *Sorts
-	decl     []string
-	declared map[string]bool
-	body     []string
-	obls     []*Obligation
-	fresh    int
-	epochs   int
-	epMemo   map[string]string
-	notes    []string // unmodelled / abstracted
-	unsup    []string // reasons making the function unverified
-	assumes  map[string]bool
-	oblNames map[string]int
-	tablesUsed map[string]bool
-	specFnUsed map[string]bool
-	axiomsDone bool
-	old      *state
-	top      *frame
-	fnIDsUsed map[*ssa.Function]bool
-	curTags  []string
-	strConsts map[string]bool
-	mode     string
-	retTerms []string
+	eng             *Engine
+	fn              *ssa.Function
+	key             string
+	spec            *FuncSpec
+	sorts           *Sorts
+	decl            []string
+	declared        map[string]bool
+	body            []string
+	obls            []*Obligation
+	fresh           int
+	epochs          int
+	epMemo          map[string]string
+	notes           []string // unmodelled / abstracted
+	unsup           []string // reasons making the function unverified
+	assumes         map[string]bool
+	oblNames        map[string]int
+	tablesUsed      map[string]bool
+	specFnUsed      map[string]bool
+	axiomsDone      bool
+	old             *state
+	top             *frame
+	fnIDsUsed       map[*ssa.Function]bool
+	curTags         []string
+	strConsts       map[string]bool
+	mode            string
+	retTerms        []string
 	pendingRefBound [][2]string
-	privCells []*ssa.Alloc
-	ftParams []string
+	privCells       []*ssa.Alloc
+	pair            *pairCtx
+	noOblige        bool
+	lastInlined     bool
+	ftParams        []string
 }
 
 func (vc *FnVC) newName(prefix string) string {
@@ -278,6 +281,13 @@ func (vc *FnVC) oblige(kind, desc, guard, cond string, tags []string, pos string
 				o.Unclaimed = reason
 			}
 		}
+	}
+	if vc.noOblige {
+		// two-run VCs: the single-run obligations are proved elsewhere; here they are assumed (full mode) or ignored (light)
+		if vc.pair == nil || !vc.pair.light {
+			vc.assume(guard, cond)
+		}
+		return
 	}
 	vc.obls = append(vc.obls, o)
 	if o.Unclaimed != "" {
